@@ -639,10 +639,16 @@ def r35(body):
     return body, count
 
 
+@rule("R36", "E.last().copied() / E.first().copied() / E.get(I).copied() -> match E.last() { Some(vx_r) => Some(*vx_r), None => None }   [Option<&T>::copied is that match for T: Copy; free rule; only after a slice accessor that returns Option<&T>, so an Iterator::copied is never touched]")
+def r36(body):
+    return _sub(r"((?:self\s*\.\s*)?\w+(?:\s*\.\s*\w+)*?\s*\.\s*(?:last|first)\s*\(\s*\)|(?:self\s*\.\s*)?\w+(?:\s*\.\s*\w+)*?\s*\.\s*get\s*\(\s*[\w\s+\-*]+\))\s*\.\s*copied\s*\(\s*\)",
+                lambda m: "(match %s { Some(vx_r) => Some(*vx_r), None => None })" % " ".join(m.group(1).split()), body)
+
+
 # rules that are purely syntactic proof devices are applied only when a unit asks for them
 OPT_IN = {"R9", "R9b", "R15", "R17", "R21", "R22", "R24", "R25", "R25b", "R26", "R28", "R30", "R31", "R32", "R33"}
 # std-definition rules that may fire in any extracted function without being declared by the unit (they are logged)
-FREE = {"R27", "R29", "R35"}
+FREE = {"R27", "R29", "R35", "R36"}
 
 
 @rule("R3b", "assert!(E, \"msg\") -> proved assertion on the executable operand   [strengthening: the runtime check must never fire]")
